@@ -2,12 +2,15 @@ HOOK_COMMITS = ["1ff129b", "a99d5e7"]
 FIX_COMMITS = ["4e1b160", "0b73798", "872da6d", "b5a5c41", "ada87a3", "a2a8667", "23387d2", "95cd43f", "1d40f2f", "9fea99c", "bc380c0", "6fab2aa", "6b8e051", "ae1cc55", "185de16", "f515ae6", "323b567", "b95a3c3"]
 NOTES = "See DESIGN.md. Every check rebuilds the Lean property module, audits axioms, rebuilds the harness from /repo's working tree (content-hash cache) and runs the ties."
 NOT_APPLICABLE = {}
-CHECKS = {'C09': {'category': 'translation_validation',
-         'technique': 'Lean 4: verified linearizability checker (sound+complete theorem) judging histories of the real stacks under a deterministic scheduler',
-         'text': 'Histories of every stack variant, produced by the real code under seeded random/PCT schedules and exhaustive <=1 (thorough <=2) preemption enumeration, are judged against the Lean '
-                 'LIFO specification by a checker proved sound and complete in Lean. The theorem is about the checker and the specification; the algorithm model (Treiber atomic-step machine) is '
-                 'added on top when finished.',
-         'note': 'SC interleavings only; memory orders not modelled; explored schedules only for the history tie; Lean kernel + propext/Classical.choice/Quot.sound.'},
+CHECKS = {'C09': {'category': 'proof',
+         'technique': 'Lean 4: atomic-step machines of the Treiber stack and of the Treiber stack with elimination back-off, both proved linearizable to the LIFO specification for all schedules + '
+                      'atomic-trace conformance of both + generic flat-combining linearizability theorem instantiated for FCStack + histories of every stack variant judged by the verified checker',
+         'text': 'C09 Treiber theorem and C09_elim_linearizable (Herlihy-Wing with pending operations; an eliminated push/pop pair is linearized at the collision store), C09_elim_no_late_collision, '
+                 'C09_elim_collision, conservation theorems hold for any number of threads and any slot / wait-bound choices; both real stacks are replayed against their machines. FCStack without '
+                 "elimination: C09_fcstack_linearizable (C10's generic theorem); its elimination pass: fixed-batch theorems tied by the differential run. All variants (container:: wrappers included) "
+                 'are judged as histories against Spec.lifo with a sequential drain at the end.',
+         'note': 'SC interleavings only; memory orders not modelled; garbage-collected heap in the machines (no node reuse: what C01/C02 provide); explored schedules only for the ties; Lean kernel + '
+                 'propext/Classical.choice/Quot.sound.'},
  'C22': {'category': 'proof',
          'technique': 'Lean 4: inductive invariants over atomic-step machines of spin_lock, reentrant_spin_lock, pool_monitor, injecting_monitor (= per-node spin lock) and lock_array (all schedules, '
                       'threads, locks / nodes / cells, pool capacities) + atomic-trace conformance of all five lock kinds + history tie and occupancy / pool oracles',
